@@ -85,7 +85,7 @@ namespace Givaro {
         size_t sC = c.size();
         size_t sB = b.size();
         size_t sR = r.size();
-        if (sB == 0) { r.copy(c); return r; }
+        if (sB == 0) { r = c; return r; }
         if (sC == 0) { return this->negin( this->mul(r,a,b) ); }
         size_t i, max = sC < sB ? sB : sC;
         if (sR != max) r.resize(max);
